@@ -117,6 +117,9 @@ StepWord(st, w) ==
        THEN LET k == CHOOSE k \in ix : TRUE  c == lvl.tail.cmds[k] IN
             [SetCur(st, [Cur(st) EXCEPT !.child = k]) EXCEPT
                 !.frames = Append(@, NewFrame(c.level)), !.path = Append(@, c.names[1])]
+       \* a choice between subcommands and a positional parser: a word that does not enter a command is
+       \* positional data, and being unclaimed in front of later words it rules out entering one afterwards
+       ELSE IF lvl.tail.else_pos # <<>> THEN [PushPos(st, w, FALSE) EXCEPT !.frozen = TRUE]
        ELSE Kill(st, "unexpected")
   ELSE IF lvl.tail.kind = "pos" THEN PushPos(st, w, FALSE)
   ELSE Kill(st, "unexpected")
@@ -235,7 +238,14 @@ FrameVal(frames, k, envv) ==
       [] f.lvl.tail.kind = "pos"  -> LET r == AssignPos(f.lvl.tail.items, f.pos, <<>>) IN
                                       IF r.ok THEN [ok |-> TRUE, v |-> [t |-> base \o r.vals]] ELSE r
       [] f.lvl.tail.kind = "cmd"  ->
-           IF f.pos # <<>> THEN [ok |-> FALSE, why |-> [k |-> "surplus"]]
+           IF f.pos # <<>> /\ (f.lvl.tail.else_pos = <<>> \/ k < Len(frames)) THEN [ok |-> FALSE, why |-> [k |-> "surplus"]]
+           ELSE IF k = Len(frames) /\ f.lvl.tail.else_pos # <<>> /\
+                   (f.pos # <<>> \/ AssignPos(f.lvl.tail.else_pos, <<>>, <<>>).ok)
+           THEN \* the positional alternative
+                LET r == AssignPos(f.lvl.tail.else_pos, f.pos, <<>>) IN
+                IF ~r.ok THEN r
+                ELSE LET pv == [v |-> Len(f.lvl.tail.cmds), x |-> r.vals[1]] IN
+                     [ok |-> TRUE, v |-> [t |-> Append(base, IF f.lvl.tail.optional THEN [some |-> pv] ELSE pv)]]
            ELSE IF k < Len(frames)
            THEN LET c == FrameVal(frames, k + 1, envv) IN
                 IF ~c.ok THEN c
